@@ -222,6 +222,7 @@ func (p *Prog) successOfCall(l Lit) (*ssa.Function, succKind, int, *ssa.Call) {
 type retPoint struct {
 	ret  *ssa.Return
 	pred *ssa.BasicBlock // non-nil: only paths through edge pred->ret.Block()
+	val  ssa.Value       // the value returned on these paths (phi edge value, or the result operand)
 }
 
 // neverNilErr: v is an error value that cannot be nil: a boxed concrete
@@ -298,14 +299,14 @@ func successReturns(h *ssa.Function, kind succKind, idx int) []retPoint {
 		if phi, ok := v.(*ssa.Phi); ok && phi.Block() == b {
 			for i, e := range phi.Edges {
 				if mayBeSuccess(e, kind) {
-					res = append(res, retPoint{ret, b.Preds[i]})
+					res = append(res, retPoint{ret, b.Preds[i], e})
 				}
 			}
 			continue
 		}
 		if mayBeSuccess(v, kind) {
 			// a dynamic error value that is known non-nil on this path is not a success return
-			res = append(res, retPoint{ret, nil})
+			res = append(res, retPoint{ret, nil, v})
 		}
 	}
 	return res
@@ -390,8 +391,8 @@ func (p *Prog) lift(q Pred, depth int) Pred {
 			if !good {
 				// the helper returns the result of another call: its own
 				// success implies that call's success
-				v := rp.ret.Results[idx]
-				if _, isConst := v.(*ssa.Const); !isConst && rp.pred == nil {
+				v := rp.val
+				if _, isConst := v.(*ssa.Const); !isConst && v != nil {
 					var implied Lit
 					if kind == errNil {
 						implied = Lit{V: v, Pos: true, Nil: true}
